@@ -1,3 +1,615 @@
 package main
 
-func childMain(args []string) {}
+import (
+	"bufio"
+	"bytes"
+	"compress/gzip"
+	"encoding/json"
+	"fmt"
+	"io"
+	"os"
+	"os/exec"
+	"path/filepath"
+	"runtime"
+	"runtime/debug"
+	"sort"
+	"strings"
+	"sync"
+	"syscall"
+	"time"
+
+	"golang.org/x/sys/unix"
+
+	archive "github.com/moby/go-archive"
+	"github.com/moby/go-archive/chrootarchive"
+	"github.com/moby/sys/user"
+)
+
+// Job is one unit of work executed inside the arena.
+type Job struct {
+	ID      int      `json:"id"`
+	Kind    string   `json:"kind"` // "fs"
+	Op      string   `json:"op"`
+	Opts    string   `json:"opts"`
+	Dest    string   `json:"dest"`
+	Root    string   `json:"root"`
+	Umask   int      `json:"umask"`
+	Nodes   []Node   `json:"nodes"`
+	Archive []byte   `json:"archive"`
+	Gzip    bool     `json:"gzip"`
+	Args    []string `json:"args,omitempty"`
+}
+
+// JobResult is what the arena child reports per job.
+type JobResult struct {
+	ID     int    `json:"id"`
+	Out    string `json:"out"`  // ok | err | panic | hang | setup
+	Err    string `json:"err"`  // error text (diagnostics only, never compared)
+	Size   int64  `json:"size"`
+	Before string `json:"before"`
+	After  string `json:"after"`
+	Extra  string `json:"extra,omitempty"`
+	Millis int64  `json:"ms"`
+}
+
+func fatal(msg string, err error) {
+	fmt.Fprintf(os.Stderr, "arena child: %s: %v\n", msg, err)
+	os.Exit(3)
+}
+
+// setupArena: fresh tmpfs, minimal world, pivot_root into it. Everything the library can reach
+// afterwards is this tmpfs (plus read-only binds of the system directories for helper binaries).
+func setupArena(dir string, sizeMB int, inodes int) {
+	if err := unix.Mount("", "/", "", unix.MS_REC|unix.MS_PRIVATE, ""); err != nil {
+		fatal("make / private", err)
+	}
+	opts := fmt.Sprintf("size=%dm,mode=0755", sizeMB)
+	if inodes > 0 {
+		opts += fmt.Sprintf(",nr_inodes=%d", inodes)
+	}
+	if err := unix.Mount("tmpfs", dir, "tmpfs", 0, opts); err != nil {
+		fatal("mount tmpfs", err)
+	}
+	for _, d := range []string{"w", "proc", "dev", "usr", "lib", "lib64", "bin", "sbin", "etc", "tmp", "old", "opt", "root"} {
+		_ = os.Mkdir(filepath.Join(dir, d), 0o755)
+	}
+	_ = os.Chmod(filepath.Join(dir, "tmp"), 0o1777)
+	for _, d := range []string{"usr", "lib", "lib64", "bin", "sbin", "opt", "root"} {
+		src := "/" + d
+		if fi, err := os.Stat(src); err != nil || !fi.IsDir() {
+			continue
+		}
+		if err := unix.Mount(src, filepath.Join(dir, d), "", unix.MS_BIND|unix.MS_REC, ""); err != nil {
+			continue
+		}
+		_ = unix.Mount("", filepath.Join(dir, d), "", unix.MS_BIND|unix.MS_REMOUNT|unix.MS_RDONLY|unix.MS_REC, "")
+	}
+	if err := unix.Mount("proc", filepath.Join(dir, "proc"), "proc", 0, ""); err != nil {
+		fatal("mount proc", err)
+	}
+	_ = unix.Mknod(filepath.Join(dir, "dev", "null"), unix.S_IFCHR|0o666, int(unix.Mkdev(1, 3)))
+	_ = os.Chmod(filepath.Join(dir, "dev", "null"), 0o666)
+	_ = os.WriteFile(filepath.Join(dir, "etc", "passwd"), []byte("root:x:0:0:root:/root:/bin/sh\n"), 0o644)
+	_ = os.WriteFile(filepath.Join(dir, "etc", "group"), []byte("root:x:0:\n"), 0o644)
+	if err := unix.PivotRoot(dir, filepath.Join(dir, "old")); err != nil {
+		fatal("pivot_root", err)
+	}
+	if err := unix.Chdir("/"); err != nil {
+		fatal("chdir", err)
+	}
+	if err := unix.Unmount("/old", unix.MNT_DETACH); err != nil {
+		fatal("umount old", err)
+	}
+	_ = os.Remove("/old")
+}
+
+// The jobs file lives outside the arena, so the child opens it (and the results file) before pivoting.
+func childMain(args []string) {
+	if len(args) < 3 {
+		fatal("usage", fmt.Errorf("__child arena jobs results"))
+	}
+	jf, err := os.Open(args[1])
+	if err != nil {
+		fatal("open jobs", err)
+	}
+	rf, err := os.OpenFile(args[2], os.O_CREATE|os.O_WRONLY|os.O_APPEND, 0o644)
+	if err != nil {
+		fatal("open results", err)
+	}
+	setupArena(args[0], 256, 0)
+	debug.SetTraceback("single")
+	sc := bufio.NewScanner(jf)
+	sc.Buffer(make([]byte, 1<<20), 1<<28)
+	w := bufio.NewWriter(rf)
+	for sc.Scan() {
+		var j Job
+		if err := json.Unmarshal(sc.Bytes(), &j); err != nil {
+			fatal("job json", err)
+		}
+		// announce the job first so the parent knows which one hangs or crashes
+		fmt.Fprintf(w, "START %d\n", j.ID)
+		w.Flush()
+		res := runJob(&j)
+		b, _ := json.Marshal(res)
+		w.Write(b)
+		w.WriteByte('\n')
+		w.Flush()
+	}
+	os.Exit(0)
+}
+
+func runJob(j *Job) (res JobResult) {
+	res.ID = j.ID
+	t0 := time.Now()
+	defer func() {
+		res.Millis = time.Since(t0).Milliseconds()
+		if r := recover(); r != nil {
+			res.Out = "panic"
+			res.Err = fmt.Sprint(r)
+		}
+	}()
+	switch j.Kind {
+	case "fs":
+		runFsJob(j, &res)
+	default:
+		if fn, ok := jobKinds[j.Kind]; ok {
+			fn(j, &res)
+		} else {
+			res.Out = "setup"
+			res.Err = "unknown job kind " + j.Kind
+		}
+	}
+	return
+}
+
+var jobKinds = map[string]func(*Job, *JobResult){}
+
+// ---- world building and scanning ----
+
+func resetWorld() error {
+	ents, err := os.ReadDir("/w")
+	if err != nil {
+		return err
+	}
+	for _, e := range ents {
+		if err := os.RemoveAll(filepath.Join("/w", e.Name())); err != nil {
+			return err
+		}
+	}
+	return nil
+}
+
+func buildWorld(nodes []Node) error {
+	ns := append([]Node(nil), nodes...)
+	sort.SliceStable(ns, func(i, j int) bool { return ns[i].Path < ns[j].Path })
+	groups := map[int]string{}
+	old := unix.Umask(0)
+	defer unix.Umask(old)
+	for _, n := range ns {
+		if err := os.MkdirAll(filepath.Dir(n.Path), 0o755); err != nil {
+			return err
+		}
+		if n.Group != 0 {
+			if first, ok := groups[n.Group]; ok {
+				if err := os.Link(first, n.Path); err != nil {
+					return err
+				}
+				continue
+			}
+			groups[n.Group] = n.Path
+		}
+		var err error
+		switch n.Kind {
+		case 'd':
+			err = os.Mkdir(n.Path, 0o755)
+			if os.IsExist(err) {
+				err = nil
+			}
+		case 'r':
+			err = os.WriteFile(n.Path, []byte(n.Data), 0o644)
+		case 's':
+			err = os.Symlink(n.Target, n.Path)
+		case 'c':
+			err = unix.Mknod(n.Path, unix.S_IFCHR|0o644, int(unix.Mkdev(n.Maj, n.Min)))
+		case 'b':
+			err = unix.Mknod(n.Path, unix.S_IFBLK|0o644, int(unix.Mkdev(n.Maj, n.Min)))
+		case 'f':
+			err = unix.Mknod(n.Path, unix.S_IFIFO|0o644, 0)
+		}
+		if err != nil {
+			return fmt.Errorf("build %s: %w", n.Path, err)
+		}
+	}
+	// ownership, mode, capability, then times (deepest first so parents are not re-touched)
+	for _, n := range ns {
+		if n.Group != 0 && groups[n.Group] != n.Path {
+			continue
+		}
+		if err := os.Lchown(n.Path, n.Uid, n.Gid); err != nil {
+			return err
+		}
+		if n.Kind != 's' {
+			if err := os.Chmod(n.Path, modeFromPerm(n.Perm)); err != nil {
+				return err
+			}
+		}
+		if n.Cap != "" {
+			if err := unix.Lsetxattr(n.Path, "security.capability", []byte(n.Cap), 0); err != nil {
+				return fmt.Errorf("setcap %s: %w", n.Path, err)
+			}
+		}
+	}
+	for i := len(ns) - 1; i >= 0; i-- {
+		n := ns[i]
+		ts := []unix.Timespec{{Sec: n.Mtime}, {Sec: n.Mtime}}
+		if err := unix.UtimesNanoAt(unix.AT_FDCWD, n.Path, ts, unix.AT_SYMLINK_NOFOLLOW); err != nil {
+			return err
+		}
+	}
+	ts := []unix.Timespec{{Sec: 1000}, {Sec: 1000}}
+	return unix.UtimesNanoAt(unix.AT_FDCWD, "/w", ts, 0)
+}
+
+func modeFromPerm(p uint32) os.FileMode {
+	m := os.FileMode(p & 0o777)
+	if p&0o4000 != 0 {
+		m |= os.ModeSetuid
+	}
+	if p&0o2000 != 0 {
+		m |= os.ModeSetgid
+	}
+	if p&0o1000 != 0 {
+		m |= os.ModeSticky
+	}
+	return m
+}
+
+func scanWorld(top string) ([]Node, error) {
+	var out []Node
+	var walk func(p string) error
+	walk = func(p string) error {
+		var st unix.Stat_t
+		if err := unix.Lstat(p, &st); err != nil {
+			return err
+		}
+		n := Node{Path: p, Perm: st.Mode & 0o7777, Uid: int(st.Uid), Gid: int(st.Gid), Mtime: st.Mtim.Sec}
+		switch st.Mode & unix.S_IFMT {
+		case unix.S_IFDIR:
+			n.Kind = 'd'
+		case unix.S_IFREG:
+			n.Kind = 'r'
+			if st.Size <= 1<<20 {
+				b, err := os.ReadFile(p)
+				if err != nil {
+					return err
+				}
+				n.Data = string(b)
+			} else {
+				n.Data = fmt.Sprintf("<%d bytes>", st.Size)
+			}
+		case unix.S_IFLNK:
+			n.Kind = 's'
+			t, err := os.Readlink(p)
+			if err != nil {
+				return err
+			}
+			n.Target = t
+		case unix.S_IFCHR:
+			n.Kind = 'c'
+			n.Maj, n.Min = unix.Major(st.Rdev), unix.Minor(st.Rdev)
+		case unix.S_IFBLK:
+			n.Kind = 'b'
+			n.Maj, n.Min = unix.Major(st.Rdev), unix.Minor(st.Rdev)
+		case unix.S_IFIFO:
+			n.Kind = 'f'
+		default:
+			n.Kind = '?'
+		}
+		buf := make([]byte, 256)
+		if sz, err := unix.Lgetxattr(p, "security.capability", buf); err == nil {
+			n.Cap = string(buf[:sz])
+		}
+		n.Group = int(st.Ino) // raw inode for now; renumbered below
+		if p != top {
+			out = append(out, n)
+		}
+		if n.Kind == 'd' {
+			ents, err := os.ReadDir(p)
+			if err != nil {
+				return err
+			}
+			for _, e := range ents {
+				if err := walk(filepath.Join(p, e.Name())); err != nil {
+					return err
+				}
+			}
+		}
+		return nil
+	}
+	if err := walk(top); err != nil {
+		return nil, err
+	}
+	sort.Slice(out, func(i, j int) bool { return out[i].Path < out[j].Path })
+	count := map[int]int{}
+	for _, n := range out {
+		if n.Kind != 'd' {
+			count[n.Group]++
+		}
+	}
+	next := 1
+	assigned := map[int]int{}
+	for i := range out {
+		ino := out[i].Group
+		if out[i].Kind == 'd' || count[ino] < 2 {
+			out[i].Group = 0
+			continue
+		}
+		if g, ok := assigned[ino]; ok {
+			out[i].Group = g
+		} else {
+			assigned[ino] = next
+			out[i].Group = next
+			next++
+		}
+	}
+	return out, nil
+}
+
+func tarOptions(o OptSpec) *archive.TarOptions {
+	t := &archive.TarOptions{NoLchown: o.NoLchown, NoOverwriteDirNonDir: o.NoOverwrite, InUserNS: o.UserNS, BestEffortXattrs: o.BestEffort}
+	if o.Chown != nil {
+		t.ChownOpts = &archive.ChownOpts{UID: o.Chown[0], GID: o.Chown[1]}
+	}
+	if len(o.Excludes) > 0 {
+		t.ExcludePatterns = append([]string{}, o.Excludes...)
+	}
+	for _, r := range o.UidMap {
+		t.IDMap.UIDMaps = append(t.IDMap.UIDMaps, user.IDMap{ID: int64(r.C), ParentID: int64(r.H), Count: int64(r.N)})
+	}
+	for _, r := range o.GidMap {
+		t.IDMap.GIDMaps = append(t.IDMap.GIDMaps, user.IDMap{ID: int64(r.C), ParentID: int64(r.H), Count: int64(r.N)})
+	}
+	if o.Overlay {
+		t.WhiteoutFormat = archive.OverlayWhiteoutFormat
+	}
+	return t
+}
+
+func runFsJob(j *Job, res *JobResult) {
+	if err := resetWorld(); err != nil {
+		res.Out, res.Err = "setup", err.Error()
+		return
+	}
+	if err := buildWorld(j.Nodes); err != nil {
+		res.Out, res.Err = "setup", err.Error()
+		return
+	}
+	before, err := scanWorld("/w")
+	if err != nil {
+		res.Out, res.Err = "setup", err.Error()
+		return
+	}
+	res.Before = renderTree(before)
+	unix.Umask(j.Umask)
+	opts := tarOptions(parseOptSpec(j.Opts))
+	stream := j.Archive
+	if j.Gzip {
+		var b bytes.Buffer
+		zw := gzip.NewWriter(&b)
+		zw.Write(stream)
+		zw.Close()
+		stream = b.Bytes()
+	}
+	var size int64
+	var opErr error
+	rd := bytes.NewReader(stream)
+	switch j.Op {
+	case "untar":
+		if j.Gzip {
+			opErr = archive.Untar(rd, j.Dest, opts)
+		} else {
+			opErr = archive.UntarUncompressed(rd, j.Dest, opts)
+		}
+	case "layer":
+		if j.Gzip {
+			size, opErr = archive.ApplyLayer(j.Dest, rd)
+		} else {
+			size, opErr = archive.ApplyUncompressedLayer(j.Dest, rd, opts)
+		}
+	case "untar-chroot":
+		if j.Root == j.Dest && !j.Gzip {
+			opErr = chrootarchive.UntarUncompressed(rd, j.Dest, opts)
+		} else {
+			opErr = chrootarchive.UntarWithRoot(rd, j.Dest, opts, j.Root)
+		}
+	case "layer-chroot":
+		if j.Gzip {
+			size, opErr = chrootarchive.ApplyLayer(j.Dest, rd)
+		} else {
+			size, opErr = chrootarchive.ApplyUncompressedLayer(j.Dest, rd, opts)
+		}
+	default:
+		res.Out, res.Err = "setup", "bad op "+j.Op
+		return
+	}
+	unix.Umask(0o022)
+	after, err := scanWorld("/w")
+	if err != nil {
+		res.Out, res.Err = "setup", "scan after: "+err.Error()
+		return
+	}
+	res.After = renderTree(after)
+	res.Size = size
+	if opErr != nil {
+		res.Out, res.Err = "err", opErr.Error()
+	} else {
+		res.Out = "ok"
+	}
+}
+
+// ---- parent side: run jobs in arena children, 16 at a time ----
+
+func runArena(cfg *Config, jobs []Job, perJobTimeout time.Duration) []JobResult {
+	results := make([]JobResult, len(jobs))
+	for i := range results {
+		results[i].ID = -1
+	}
+	idx := map[int]int{}
+	for i, j := range jobs {
+		idx[j.ID] = i
+	}
+	workers := runtime.NumCPU()
+	if workers > 16 {
+		workers = 16
+	}
+	if workers > len(jobs) {
+		workers = len(jobs)
+	}
+	if workers < 1 {
+		workers = 1
+	}
+	var wg sync.WaitGroup
+	chunk := (len(jobs) + workers - 1) / workers
+	var mu sync.Mutex
+	for w := 0; w < workers; w++ {
+		lo, hi := w*chunk, (w+1)*chunk
+		if lo >= len(jobs) {
+			break
+		}
+		if hi > len(jobs) {
+			hi = len(jobs)
+		}
+		wg.Add(1)
+		go func(w int, part []Job) {
+			defer wg.Done()
+			for len(part) > 0 {
+				done := runArenaChild(cfg, w, part, perJobTimeout, func(r JobResult) {
+					mu.Lock()
+					results[idx[r.ID]] = r
+					mu.Unlock()
+				})
+				part = part[done:]
+			}
+		}(w, jobs[lo:hi])
+	}
+	wg.Wait()
+	return results
+}
+
+var arenaSeq int
+var arenaSeqMu sync.Mutex
+
+// runArenaChild runs as many of the jobs as the child survives; returns how many were consumed.
+func runArenaChild(cfg *Config, w int, jobs []Job, perJob time.Duration, emit func(JobResult)) int {
+	arenaSeqMu.Lock()
+	arenaSeq++
+	seq := arenaSeq
+	arenaSeqMu.Unlock()
+	base := cfg.Work
+	if base == "" {
+		base = filepath.Join("/verif/.work", fmt.Sprintf("h%d", os.Getpid()))
+	}
+	dir := filepath.Join(base, fmt.Sprintf("arena_%d_%d", os.Getpid(), seq))
+	_ = os.MkdirAll(dir, 0o755)
+	defer os.RemoveAll(dir)
+	arena := filepath.Join(dir, "mnt")
+	_ = os.Mkdir(arena, 0o755)
+	jobsFile := filepath.Join(dir, "jobs")
+	resFile := filepath.Join(dir, "results")
+	jf, _ := os.Create(jobsFile)
+	bw := bufio.NewWriter(jf)
+	for _, j := range jobs {
+		b, _ := json.Marshal(j)
+		bw.Write(b)
+		bw.WriteByte('\n')
+	}
+	bw.Flush()
+	jf.Close()
+	os.WriteFile(resFile, nil, 0o644)
+
+	cmd := exec.Command("/proc/self/exe", "__child", arena, jobsFile, resFile)
+	cmd.Stderr = os.Stderr
+	cmd.SysProcAttr = &syscall.SysProcAttr{Unshareflags: syscall.CLONE_NEWNS, Setpgid: true, Pdeathsig: syscall.SIGKILL}
+	cmd.Env = append(os.Environ(), "GOMAXPROCS=4")
+	if err := cmd.Start(); err != nil {
+		for _, j := range jobs {
+			emit(JobResult{ID: j.ID, Out: "setup", Err: "start child: " + err.Error()})
+		}
+		return len(jobs)
+	}
+	exited := make(chan error, 1)
+	go func() { exited <- cmd.Wait() }()
+
+	rf, _ := os.Open(resFile)
+	defer rf.Close()
+	rd := bufio.NewReaderSize(rf, 1<<20)
+	consumed := 0
+	started := -1
+	lastProgress := time.Now()
+	var pending []byte
+	childDone := false
+	for consumed < len(jobs) {
+		line, err := rd.ReadBytes('\n')
+		pending = append(pending, line...)
+		if err == nil {
+			l := strings.TrimRight(string(pending), "\n")
+			pending = nil
+			lastProgress = time.Now()
+			if strings.HasPrefix(l, "START ") {
+				fmt.Sscanf(l, "START %d", &started)
+				continue
+			}
+			var r JobResult
+			if e := json.Unmarshal([]byte(l), &r); e == nil {
+				emit(r)
+				consumed++
+				started = -1
+			}
+			continue
+		}
+		if err != io.EOF {
+			break
+		}
+		if childDone {
+			break
+		}
+		select {
+		case <-exited:
+			childDone = true
+			continue
+		case <-time.After(5 * time.Millisecond):
+		}
+		if time.Since(lastProgress) > perJob {
+			// the job announced by START hangs
+			syscall.Kill(-cmd.Process.Pid, syscall.SIGKILL)
+			<-exited
+			childDone = true
+			if started >= 0 {
+				emit(JobResult{ID: started, Out: "hang", Err: fmt.Sprintf("no result within %s", perJob)})
+				consumed++
+			}
+			return maxInt(consumed, 1)
+		}
+	}
+	if !childDone {
+		syscall.Kill(-cmd.Process.Pid, syscall.SIGKILL)
+		<-exited
+	}
+	if consumed < len(jobs) {
+		// the child died: blame the job it had started
+		id := jobs[consumed].ID
+		if started >= 0 {
+			id = started
+		}
+		emit(JobResult{ID: id, Out: "panic", Err: "arena child exited while running this job"})
+		consumed++
+	}
+	return consumed
+}
+
+func maxInt(a, b int) int {
+	if a > b {
+		return a
+	}
+	return b
+}
